@@ -30,6 +30,8 @@ type C15Case struct {
 	RootName string `json:"root_name,omitempty"`
 	// Upper: the assembly files carry `##!+ i` and an upper-case letter inside a class (format's lint fires)
 	Upper bool `json:"upper,omitempty"`
+	// OddEOF: the test files end without newline / with several (numbering aside, a rewrite would change them)
+	OddEOF string `json:"odd_eof,omitempty"`
 }
 
 var c15RootNames = []string{"", "", "", "crs[12]", "crs[!x]", "crs 1", "crs{1}"}
@@ -68,6 +70,7 @@ func genC15(t *rapid.T) C15Case {
 	}
 	c.RootName = rapid.SampledFrom(c15RootNames).Draw(t, "rootname")
 	c.Upper = rapid.IntRange(0, 3).Draw(t, "upper") == 0
+	c.OddEOF = rapid.SampledFrom([]string{"", "", "", "none", "\n\n\n", "\n  \n"}).Draw(t, "oddeof")
 	n := rapid.IntRange(3, 12).Draw(t, "ndecoys")
 	c.Decoys = rapid.Permutation(c15DecoyPool).Draw(t, "decoys")[:n]
 	if openFinding("D18") {
@@ -182,6 +185,19 @@ func checkC15(c C15Case) Outcome {
 	// files in the include directory that are no assembly files
 	tree[sel+"/regex-assembly/include/notes.txt"] = decoyContent("regex-assembly/")
 	tree[sel+"/regex-assembly/include/data.raw"] = decoyContent("regex-assembly/")
+	if c.OddEOF != "" {
+		for p, v := range tree {
+			if strings.HasPrefix(p, sel+"/tests/") && (strings.HasSuffix(p, ".yaml") || strings.HasSuffix(p, ".yml")) {
+				if c.OddEOF == "none" {
+					tree[p] = strings.TrimSuffix(v, "\n")
+				} else {
+					tree[p] = v + strings.TrimPrefix(c.OddEOF, "\n")
+				}
+			}
+		}
+		lab = append(lab, "test-files-with-odd-end")
+		out.Labels = lab
+	}
 	for _, d := range c.Decoys {
 		if strings.HasSuffix(d, "/") {
 			tree[sel+"/"+d] = ""
